@@ -25,13 +25,20 @@ Inductive wop :=
 | WRotate                      (* Rotate()               -> [] *)
 | WMerge.                      (* m := Merge()           -> [m.TotalCount; m.Min; m.Max] *)
 
+(* calls on a store of several live histograms and snapshots (slot 0 = New(lo,hi,sig)) *)
+Inductive mcall :=
+| MCOp (o : mop)                 (* -> the op's own result: [ok] / [dropped] / [] *)
+| MCQuery (i : nat) (m e : Z)    (* h[i]: TotalCount, rank and ValueAtQuantile(m*2^e), Min, Max -> [t; rank; v; min; max] *)
+| MCEq (i j : nat).              (* h[i].Equals(h[j]) -> [b] *)
+
 Inductive case :=
 | CHist (id lo hi sig : Z) (geom : obs) (script : list (op * obs))
 | CBitLen (id : Z) (xs : list Z) (out : list Z)
-| CWin (id n lo hi sig : Z) (made : obs) (script : list (wop * obs)).
+| CWin (id n lo hi sig : Z) (made : obs) (script : list (wop * obs))
+| CMulti (id lo hi sig : Z) (script : list (mcall * obs)).
 
 Definition case_id (c : case) : Z :=
-  match c with CHist id _ _ _ _ _ => id | CBitLen id _ _ => id | CWin id _ _ _ _ _ _ => id end.
+  match c with CHist id _ _ _ _ _ => id | CBitLen id _ _ => id | CWin id _ _ _ _ _ _ => id | CMulti id _ _ _ _ => id end.
 
 Fixpoint zlist_eqb (a b : list Z) : bool :=
   match a, b with
@@ -125,6 +132,32 @@ Fixpoint run_wscript (w : whist) (s : list (wop * obs)) : bool :=
       end
   end.
 
+Definition query_obs (h : hist) (m e : Z) : obs :=
+  let q := float_of_me m e in
+  match value_at_quantile h q, hist_min h, hist_max h with
+  | Ok v, Ok a, Ok b => OZ [total_count h; rank_of q (h_total h); v; a; b]
+  | _, _, _ => OPanic
+  end.
+
+Definition run_mcall (lo hi sig : Z) (st : mstore) (c : mcall) : mstore * obs :=
+  match c with
+  | MCOp o => match mstep lo hi sig st o with
+              | Ok (st', r) => (st', OZ r)
+              | _ => (st, OPanic)
+              end
+  | MCQuery i m e => (st, match nth_error (ms_h st) i with Some h => query_obs h m e | None => OZ [] end)
+  | MCEq i j => (st, match nth_error (ms_h st) i, nth_error (ms_h st) j with
+                     | Some a, Some b => match equals a b with Ok r => OZ [b2z r] | _ => OPanic end
+                     | _, _ => OZ []
+                     end)
+  end.
+
+Fixpoint run_mscript (lo hi sig : Z) (st : mstore) (s : list (mcall * obs)) : bool :=
+  match s with
+  | [] => true
+  | (c, ob) :: s' => let '(st', mo) := run_mcall lo hi sig st c in obs_eqb mo ob && run_mscript lo hi sig st' s'
+  end.
+
 Definition check_case (c : case) : bool :=
   match c with
   | CHist _ lo hi sig g script =>
@@ -139,6 +172,11 @@ Definition check_case (c : case) : bool :=
       match new_windowed n lo hi sig with
       | Ok w => obs_eqb (OZ [Z.of_nat (length (w_h w)); w_idx w]) made && run_wscript w script
       | _ => obs_eqb OPanic made && match script with [] => true | _ => false end
+      end
+  | CMulti _ lo hi sig script =>
+      match new_hist lo hi sig with
+      | Ok h => run_mscript lo hi sig (mkMS [h] []) script
+      | _ => match script with [] => true | _ => false end
       end
   end.
 
